@@ -43,6 +43,25 @@ claim("C17", "Relational size check only (level other): see evidence coverage.ex
 
 claim("C06", "No old writer exists; two writer models (DESIGN Appendix G) are validated natively against all 97 archived fixtures at setup (assumption A-LW) and then executed symbolically: a symbolic key set is written in every pre-0.5.10 layout variant (u32 children with symbolic upper halves, 16-bit bitmap children, extended bitmaps, steps on leaves; headers 1.0.0/0.5.8/0.5.9) or rewritten into the 0.5.10/0.5.11 layout (nopref/innpref/allpref), loaded by the real Unmarshal (version dispatch and all converters) and must answer Get/RangeGet/Search for every key, exact absent-key answers and scans for allpref, also after the buffer is overwritten.", "§7 C06", note="A-LW: the historical writers produced, for any key set, what the two models produce (checked on every archived sample, unverifiable beyond them). A-PB for the opaque bodies. >65535 nodes and steps >255 nibbles with symbolic content are outside the bounds.")
 
+# round-4 additions (appended to the claim texts above)
+ROUND4 = {
+    "C01": " Also with values behind an application encoder whose encodings are empty or two bytes (fixed-size leaf array with absent elements), and on length-diverse key sets (key lengths 0..300 bytes on and around 32/64/128/256) and a key that is also a 16-branch inner node.",
+    "C02": " Also with the empty-or-two-byte application encoder and on the length-diverse key sets (0..300-byte keys).",
+    "C03": " Also for queries that extend an indexed key by symbolic bytes and a concrete tail of 33..70 bytes, on length-diverse key sets (0..300-byte keys), and with the empty-or-two-byte application encoder.",
+    "C09": " Also with the empty-or-two-byte application encoder and on the length-diverse key sets.",
+    "C10": " Also for queries that extend an indexed key by symbolic bytes and a concrete tail of 33..70 bytes, on length-diverse key sets, and with an application encoder whose encodings are empty or two bytes.",
+    "C04": " Also with an application encoder whose encodings are empty or two bytes (absent leaves inside a fixed-size leaf array) and on length-diverse key sets.",
+    "C14": " Every indexed key is also used as the query for all four integer widths on 3..355-leaf tries (leaf byte counts that are not multiples of 8).",
+    "C08": " Accepted-implies-correct is also decided while a second trie is built afterwards / after an earlier build.",
+    "C12": " Also on indexes whose key lengths range over 0..300 bytes (on and around 32/64/128/256).",
+    "C06": " Also a legacy node that holds a value and all 16 branches, and 0..300-byte keys, through both writer models.",
+    "C13": " Also on length-diverse key sets and for queries that extend an indexed key by a 40-byte tail.",
+    "C05": " Also on length-diverse key sets and for queries that extend an indexed key by a 40-byte tail.",
+    "C19": " Also on length-diverse key sets and a 17-label node.",
+}
+for _p, _t in ROUND4.items():
+    CLAIMS[_p]["text"] += _t
+
 def main():
     checks = []
     for pid in ALL:
